@@ -142,18 +142,26 @@ def monitor_tables(res, pipe, summary, classes=('ObjectQueue', 'UncompressedFile
         g, t = gold.get(cls, {}), tabs.get(cls, {})
         for m in sorted(set(g) | set(t)):
             a, b = g.get(m), t.get(m)
-            ok = a is not None and b is not None and a['waits'] == b['waits'] and a['lock'] == b['lock'] and a['notifies'] == b['notifies']
+            # the *meaning* of a wait predicate is tied by the Blf.MonitorTie.*_guard theorems (predicate translated from the AST);
+            # here only the condition variable waited on must be the recorded one; a changed shape hash is reported as drift
+            cva = [w[0] for w in a['waits']] if a else None
+            cvb = [w[0] for w in b['waits']] if b else None
+            if a is not None and b is not None and a['waits'] != b['waits'] and cva == cvb:
+                res.corr.setdefault('wait_predicate_shape_drift', []).append('%s::%s' % (cls, m))
+            ok = a is not None and b is not None and cva == cvb and a['lock'] == b['lock'] and a['notifies'] == b['notifies']
             why = ''
             if not ok:
                 if a is None or b is None:
                     why = 'method %s' % ('added' if a is None else 'removed')
                 else:
                     why = '; '.join(x for x in [
-                        'wait predicate changed (condition variable / shape hash %s -> %s)' % (a['waits'], b['waits']) if a['waits'] != b['waits'] else '',
+                        'condition variable waited on changed (%s -> %s)' % (a['waits'], b['waits']) if cva != cvb else '',
                         'notifications changed %s -> %s' % (a['notifies'], b['notifies']) if a['notifies'] != b['notifies'] else '',
                         'lock kind %s -> %s' % (a['lock'], b['lock']) if a['lock'] != b['lock'] else ''] if x)
             res.oblige('T:monitor:%s::%s' % (cls, m), ok, why)
-    ths = ['Blf.MonitorTie.queue_notifies', 'Blf.MonitorTie.queue_waits', 'Blf.MonitorTie.ufile_notifies', 'Blf.MonitorTie.ufile_waits']
+    ths = ['Blf.MonitorTie.queue_notifies', 'Blf.MonitorTie.queue_waits', 'Blf.MonitorTie.ufile_notifies', 'Blf.MonitorTie.ufile_waits',
+           'Blf.MonitorTie.queue_read_guard', 'Blf.MonitorTie.queue_write_guard', 'Blf.MonitorTie.ufile_read_guard',
+           'Blf.MonitorTie.ufile_write_guard', 'Blf.MonitorTie.ufile_writeCont_guard']
     pipe.lean(['Blf.MonitorTie'], {'Blf.MonitorTie': ths})
 
 
